@@ -75,11 +75,28 @@ class Gen:
         self.cov = {}
 
     # ------------------------------------------------------------------ variables
+    def choose_globals(self):
+        r = self.rng
+        self.G = {"int": sorted(r.sample(INT_IDS, r.choice([1, 2, 2, 3]))), "str": [4] if r.random() < 0.5 else [],
+                  "arr": r.random() < 0.4}
+        self.V = {"int": sorted(r.sample(INT_IDS, r.choice([1, 2, 3, 4]))), "str": r.choice([[4], [4, 5], [5], []]),
+                  "arr": r.random() < 0.4}
+        self.M = {"int": sorted(r.sample(INT_IDS, r.choice([1, 1, 2, 4])))}
+        self.P = {"int": r.choice([[0], [1], [0, 1]])}
+
+    def choose_locals(self):
+        r = self.rng
+        self.Lc = {"int": sorted(r.sample(INT_IDS, r.choice([2, 2, 3, 4]))), "str": r.choice([[4], [4], [4, 5], []]),
+                   "arr": r.random() < 0.5, "sarr": r.random() < 0.25, "carr": r.random() < 0.25}
+
     def int_vars(self, ctx, writable=False):
-        vs = [("l", i) for i in INT_IDS] + [("g", i) for i in INT_IDS] + [("v", i) for i in INT_IDS] \
-            + [("m", i) for i in INT_IDS] + [("p", 0), ("p", 1)]
-        if self.cur and self.cur.get("rec") and writable:
-            vs = [v for v in vs if v != ("l", 0)]
+        vs = [("l", i) for i in self.Lc["int"]] + [("g", i) for i in self.G["int"]] + [("v", i) for i in self.V["int"]] \
+            + [("m", i) for i in self.M["int"]] + [("p", i) for i in self.P["int"]]
+        if self.cur and self.cur.get("rec"):
+            if writable:
+                vs = [v for v in vs if v != ("l", 0)]
+            elif ("l", 0) not in vs:
+                vs.append(("l", 0))
         if not writable:
             vs += [("l", i) for i in ctx.extra_ints]
             if self.cur:
@@ -87,13 +104,16 @@ class Gen:
         return vs
 
     def str_vars(self):
-        return [("l", 4), ("l", 5), ("g", 4), ("v", 4), ("v", 5)]
+        return [("l", i) for i in self.Lc["str"]] + [("g", i) for i in self.G["str"]] + [("v", i) for i in self.V["str"]]
 
     def arr_vars(self):
-        return [("l", 6), ("g", 6), ("v", 6)]
+        return ([("l", 6)] if self.Lc["arr"] else []) + ([("g", 6)] if self.G["arr"] else []) + ([("v", 6)] if self.V["arr"] else [])
 
     def pick_int_var(self, ctx, writable=False):
-        sc, x = self.rng.choice(self.int_vars(ctx, writable))
+        vs = self.int_vars(ctx, writable)
+        if not vs:
+            vs = [("l", self.Lc["int"][-1])]
+        sc, x = self.rng.choice(vs)
         return sc, x
 
     # ------------------------------------------------------------------ expressions
@@ -151,18 +171,24 @@ class Gen:
         if r < 0.89:
             return ("cpl", self.gen_int(ctx, d - 1))
         if r < 0.93:
+            if not self.arr_vars():
+                return self.lit()
             sc, x = self.rng.choice(self.arr_vars())
             return ("x", var(sc, x), ("i", self.rng.randrange(1, 4)))
         if r < 0.95:
             k = self.rng.random()
-            if k < 0.4:
+            if k < 0.4 and self.str_vars():
                 sc, x = self.rng.choice(self.str_vars())
                 return ("size", var(sc, x))
-            if k < 0.8:
+            if k < 0.8 and self.arr_vars():
                 sc, x = self.rng.choice(self.arr_vars())
                 return ("size", var(sc, x))
-            return ("size", var("l", 8))
+            if self.Lc["carr"]:
+                return ("size", var("l", 8))
+            return ("size", self.str_lit())
         if r < 0.97:
+            if not self.Lc["carr"]:
+                return self.lit()
             return ("x", var("l", 8), ("i", self.rng.randrange(1, 4)))
         c = self.gen_call(ctx, d - 1)
         return c if c else self.lit()
@@ -181,8 +207,6 @@ class Gen:
                 args.append(self.small_int(ctx))
             else:
                 args.append(self.gen_int(ctx, min(d, 1)))
-        if self.rng.random() < 0.1 and args:
-            args = args[:-1] if not info["rec"] or len(args) > 1 else args
         return ("call", f, args)
 
     def str_lit(self):
@@ -191,7 +215,7 @@ class Gen:
     def gen_str(self, ctx, d):
         r = self.rng.random()
         if d <= 0 or r < 0.35:
-            if self.rng.random() < 0.5:
+            if self.rng.random() < 0.5 or not self.str_vars():
                 return self.str_lit()
             sc, x = self.rng.choice(self.str_vars())
             return var(sc, x)
@@ -229,12 +253,14 @@ class Gen:
             return self.gen_str(ctx, min(d, 2))
         if r < 0.88:
             return var("l", 9)
-        if r < 0.94:
+        if r < 0.94 and self.arr_vars():
             sc, x = self.rng.choice(self.arr_vars())
             return ("x", var(sc, x), ("i", self.rng.randrange(0, 6)))
         if r < 0.97:
             return ("nil",)
-        return ("x", var("l", 7), ("s", self.rng.choice(["ka", "kb", "kc"])))
+        if self.Lc["sarr"]:
+            return ("x", var("l", 7), ("s", self.rng.choice(["ka", "kb", "kc"])))
+        return self.gen_int(ctx, 1)
 
     # ------------------------------------------------------------------ statements
     def note(self, kind, ctx):
@@ -249,7 +275,7 @@ class Gen:
             sc, x = self.pick_int_var(ctx, True)
             self.note("set", ctx)
             return ("set", lv(sc, x), self.gen_int(ctx, d))
-        if r < 0.30:
+        if r < 0.30 and self.str_vars():
             sc, x = self.rng.choice(self.str_vars())
             self.note("set", ctx)
             return ("set", lv(sc, x), self.gen_str(ctx, min(d, 2)))
@@ -264,7 +290,7 @@ class Gen:
             else:
                 e = self.gen_int(ctx, min(d, 2))
             return ("cset", op, lv(sc, x), e)
-        if r < 0.46:
+        if r < 0.46 and self.str_vars():
             sc, x = self.rng.choice(self.str_vars())
             self.note("cset", ctx)
             return ("cset", "add", lv(sc, x), self.gen_printable_nonnil(ctx))
@@ -273,12 +299,12 @@ class Gen:
             k = self.rng.choice(["inc", "dec"])
             self.note(k, ctx)
             return (k, lv(sc, x))
-        if r < 0.62:
+        if r < 0.62 and self.arr_vars():
             sc, x = self.rng.choice(self.arr_vars())
             self.note("set-elem", ctx)
             return ("set", lv(sc, x, [("i", self.rng.randrange(0, 6)) if self.rng.random() < 0.7 else self.small_int(ctx)]),
                     self.gen_int(ctx, min(d, 2)))
-        if r < 0.66:
+        if r < 0.66 and self.arr_vars():
             sc, x = self.rng.choice(self.arr_vars())
             k = self.rng.choice(["cset", "inc"])
             self.note(k + "-elem", ctx)
@@ -287,10 +313,10 @@ class Gen:
         if r < 0.70:
             self.note("set-nilable", ctx)
             return ("set", lv("l", 9), self.gen_printable(ctx, 1))
-        if r < 0.73:
+        if r < 0.73 and self.Lc["sarr"]:
             self.note("set-elem", ctx)
             return ("set", lv("l", 7, [("s", self.rng.choice(["ka", "kb", "kc", "kd"]))]), self.gen_int(ctx, 1))
-        if r < 0.76:
+        if r < 0.76 and self.Lc["carr"]:
             self.note("set-elem", ctx)
             return ("set", lv("l", 8, [("i", self.rng.randrange(1, 4))]), self.gen_int(ctx, 1))
         if r < 0.80:
@@ -451,7 +477,7 @@ class Gen:
         on_str = self.rng.random() < 0.3
         if on_str:
             labels = self.rng.sample(SAFE_WORDS, self.rng.randrange(1, 4))
-            e = self.rng.choice([("s", self.rng.choice(SAFE_WORDS)), var(*self.rng.choice(self.str_vars()))])
+            e = ("s", self.rng.choice(SAFE_WORDS)) if self.rng.random() < 0.5 or not self.str_vars() else var(*self.rng.choice(self.str_vars()))
             items = [("cs", w) for w in labels]
         else:
             pool = [0, 1, 2, 3, -1, 5, 256, 65536]
@@ -491,32 +517,34 @@ class Gen:
         """initialise the typed variables a thread uses"""
         out = []
 
-        def init_scope(sc, ints, strs, arr, sarr=False, carr=False):
-            for i in ints:
+        def init_scope(sc, d):
+            for i in d.get("int", []):
                 out.append(("set", lv(sc, i), self.lit()))
-            for i in strs:
+            for i in d.get("str", []):
                 out.append(("set", lv(sc, i), self.str_lit()))
-            if arr:
+            if d.get("arr"):
                 for k in (1, 2, 3):
                     out.append(("set", lv(sc, 6, [("i", k)]), ("i", self.rng.choice(SMALL))))
-            if sarr:
+            if d.get("sarr"):
                 out.append(("set", lv(sc, 7, [("s", "ka")]), ("i", self.rng.choice(SMALL))))
                 out.append(("set", lv(sc, 7, [("s", "kb")]), ("i", self.rng.choice(SMALL))))
-            if carr:
+            if d.get("carr"):
                 out.append(("set", lv(sc, 8), ("carr", [("i", self.rng.choice(SMALL)) for _ in range(3)])))
-        init_scope("l", INT_IDS, STR_IDS, True, True, True)
+        init_scope("l", self.Lc)
         if kind != "thread":
-            init_scope("g", INT_IDS, [4], True)
+            init_scope("g", self.G)
         if kind == "main":
-            init_scope("v", INT_IDS, STR_IDS, True)
-            init_scope("m", INT_IDS, [], False)
-            init_scope("p", [0, 1], [], False)
+            init_scope("v", self.V)
+            init_scope("m", self.M)
+            init_scope("p", self.P)
+        self.rng.shuffle(out)
         self.count += len(out)
         return out
 
     def gen_function(self, f, kind, nparams, rec):
         info = {"f": f, "kind": kind, "nparams": nparams, "rec": rec}
         self.cur = info
+        self.choose_locals()
         items = [("lab", f, [("l", 10 + k) for k in range(nparams)])]
         body = []
         if rec:
@@ -547,6 +575,7 @@ class Gen:
 
     def gen_program(self):
         """-> list of items"""
+        self.choose_globals()
         nfun = self.rng.choice([0, 1, 2, 3])
         funs = []
         for k in range(nfun):
@@ -554,11 +583,12 @@ class Gen:
             kind = self.rng.choice(["wait", "wait", "thread"])
             rec = kind == "wait" and self.rng.random() < 0.35
             nparams = self.rng.choice([1, 2]) if rec else self.rng.choice([0, 1, 2])
-            saved, self.max_stmts = self.max_stmts, self.count + 14
+            saved, self.max_stmts = self.max_stmts, self.count + 18
             funs.append(self.gen_function(f, kind, nparams, rec))
             self.max_stmts = saved
         info = {"f": 10, "kind": "main", "nparams": 0, "rec": False}
         self.cur = info
+        self.choose_locals()
         main = [("lab", 0, [])]
         body = self.prelude("main")
         ctx = Ctx()
